@@ -225,6 +225,8 @@ def run(tier):
         'are exercised through stand-in routes with a stub handler in the "view" world',
         'whether junk after a complete base64 encoding of the right pair is tolerated is left open by the property (class rightThenJunk); both outcomes '
         'are accepted and the observed one is reported',
+        'stand-alone reader (reader.Init with its own router): judged by the property only (401 / 400 before any handler or database connection, right '
+        'credentials pass), for the reader route tables, CORS on and off, credentials with blanks at the edges set directly in the configuration struct',
         'black box: MODE=reader only (writer.Init needs a native-protocol ClickHouse); "database interaction" = a TCP connection accepted by the '
         'listener that stands in for ClickHouse during the first 30 s, in which the watchdog does not touch the database',
     ]
@@ -367,21 +369,56 @@ def run(tier):
                 evs = sample_events(btr, 20000, rng)
                 tv['blackbox'] = validate(sd, 'bb', chain, evs, viols, 'blackbox')
                 bb.pop('findings', None)
+        # 6. (c) the stand-alone reader (reader.Init(cfg, nil): reader/main.go applyMiddlewares, own router and listener), one child
+        #    process per configuration: CORS on / off x credentials of the cases / credentials with blanks at the edges
+        sa = {'ran': False, 'runs': []}
+        if candidate:
+            sa['skipped'] = 'counterexample replay only'
+        else:
+            import subprocess
+            combos = [('on', seed % 4), ('off', -1)] if quick else [('on', seed % 4), ('off', (seed + 1) % 4), ('on', -1), ('off', -1), ('off', (seed + 2) % 4)]
+            procs = []
+            for i, (cors, pair) in enumerate(combos):
+                so = os.path.join(sd, 'sa%d.json' % i)
+                cmd = [binp, 'blackbox', '-standalone', '-cors', cors, '-pair', str(pair), '-repo', vlib.REPO, '-cases', cp, '-out', so,
+                       '-log', os.path.join(sd, 'sa%d.log' % i), '-seed', str(seed), '-budget', str(6 if quick else 20)] + wd
+                procs.append((cors, pair, so, subprocess.Popen(cmd, stdout=subprocess.PIPE, stderr=subprocess.STDOUT, text=True, env=vlib.goenv())))
+            for cors, pair, so, pr in procs:
+                try:
+                    out_txt, _ = pr.communicate(timeout=150)
+                except subprocess.TimeoutExpired:
+                    pr.kill()
+                    raise vlib.Infra('c20 stand-alone run (cors %s, pair %d) timed out' % (cors, pair))
+                if pr.returncode != 0 or not os.path.exists(so):
+                    raise vlib.Infra('c20 stand-alone run failed (rc %s, cors %s, pair %d): %s' % (pr.returncode, cors, pair, (out_txt or '')[-2000:]))
+                one = json.load(open(so))
+                n0 = len(viols)
+                findings_to_violations(one, 'standalone', viols)
+                if len(viols) == n0 and (not one['rejected_401'] or one['requests'] < 100 or not one.get('clickhouse_accepts_total')):
+                    raise vlib.Infra('vacuous stand-alone run (cors %s, pair %d): %d requests, %d rejections, %s database connections' % (
+                        cors, pair, one['requests'], one['rejected_401'], one.get('clickhouse_accepts_total')))
+                sa['runs'].append({'cors': cors, 'blank_credentials_pair': pair, 'requests': one['requests'], 'rejected_401': one['rejected_401'],
+                                   'rejected_400': one.get('rejected_400'), 'by_class': one.get('by_class'),
+                                   'clickhouse_accepts_total': one.get('clickhouse_accepts_total'),
+                                   'clickhouse_accepts_during_unauthenticated': one.get('clickhouse_accepts_during_unauthenticated', 0), 'notes': one.get('notes')})
+            sa['ran'] = True
+            sa['requests'] = sum(x['requests'] for x in sa['runs'])
         if drift and not viols:
             raise vlib.Infra('the wiring in the repository cannot be replayed in process (%s) and the black box shows no breach (%s requests): '
                              'update the driver' % (drift, bb.get('requests')))
         ntr = sum(v.get('events', 0) for v in tv.values())
         samples = (inproc.get('samples') or bb.get('samples') or [])[:3]
         cov = {'states': mc['states'], 'transitions': mc['transitions'],
-               'traces_validated_against_impl': max(1, inproc['requests'] + (bb.get('requests', 0) if bb.get('ran') else 0)),
+               'traces_validated_against_impl': max(1, inproc['requests'] + (bb.get('requests', 0) if bb.get('ran') else 0) + sa.get('requests', 0)),
                'samples': samples,
                'exhaustive': True, 'model_check': mc,
                'distinct_nontrivial': inproc['cases'],
                'inproc': {k: inproc[k] for k in inproc if k not in ('samples', 'findings', 'drift')},
                'blackbox': {k: bb[k] for k in bb if k not in ('samples', 'drift')},
+               'standalone_reader': sa,
                'trace_validation': tv, 'trace_events_validated_by_tlc': ntr,
                'wiring_read_off_main_go': rj['wiring'], 'reader_route_tables': rj['reader_calls'], 'route_entries_per_group': rj['entries_per_group'],
-               'checker_cmd': 'c20 routes -> tlc MC_Auth (export) -> c20 run (in process) -> tlc Trace_Auth -> go build qryn; c20 blackbox -> tlc Trace_Auth'}
+               'checker_cmd': 'c20 routes -> tlc MC_Auth (export) -> c20 run (in process) -> tlc Trace_Auth -> go build qryn; c20 blackbox -> tlc Trace_Auth; c20 blackbox -standalone (reader.Init(cfg, nil) per configuration)'}
         return {'level': 'model_checking', 'coverage': cov, 'violations': viols, 'assumptions': assumptions}
     finally:
         shutil.rmtree(sd, ignore_errors=True)
